@@ -65,6 +65,14 @@ template <int C, int R, typename T> static void op_elementwise(const Case& c, Ou
   { glm::mat<C, R, T> X = A; ++X; EW(18, X, (T)(AE + T(1)), "++A") } { glm::mat<C, R, T> X = A; --X; EW(19, X, (T)(AE - T(1)), "--A") }
   { glm::mat<C, R, T> X = A; glm::mat<C, R, T> Y = X++; EW(20, X, (T)(AE + T(1)), "A++ (new value)") EW(21, Y, AE, "A++ (returned old value)") }
   { glm::mat<C, R, T> X = A; glm::mat<C, R, T> Y = X--; EW(22, X, (T)(AE - T(1)), "A-- (new value)") EW(23, Y, AE, "A-- (returned old value)") }
+  // the scalar operand aliases an element of the matrix being modified: every element must be combined with the OLD value
+  { const int ac[3] = {0, C - 1, 1 % C}, ar[3] = {0, R - 1, 0};
+    for (int q = 0; q < 3; ++q) { T old = cv<T>(a.a[ac[q]][ar[q]]);
+      { glm::mat<C, R, T> X = A; X *= X[ac[q]][ar[q]]; EW(27, X, (T)(AE * old), "A *= A[c][r] (scalar aliases an element of A)") }
+      { glm::mat<C, R, T> X = A; X += X[ac[q]][ar[q]]; EW(28, X, (T)(AE + old), "A += A[c][r] (scalar aliases an element of A)") }
+      { glm::mat<C, R, T> X = A; X -= X[ac[q]][ar[q]]; EW(29, X, (T)(AE - old), "A -= A[c][r] (scalar aliases an element of A)") }
+      if (old != T(0) && !(isint && std::is_signed<T>::value && old == T(-1))) { glm::mat<C, R, T> X = A; X /= X[ac[q]][ar[q]]; EW(30, X, (T)(AE / old), "A /= A[c][r] (scalar aliases an element of A)") } } }
+  { glm::mat<C, R, T> X = A; X += X; EW(31, X, (T)(AE + AE), "A += A (self aliasing)") } { glm::mat<C, R, T> X = A; X -= X; EW(32, X, (T)(AE - AE), "A -= A (self aliasing)") }
   bool same = true; for (int cc = 0; cc < C; ++cc) for (int r = 0; r < R; ++r) if (!(AE == BE)) same = false;
   if ((A == B) != same || (A != B) == same) { o.res(A == B, A != B); o.exp(same, !same); o.bad(24, "operator== / operator!= on matrices"); return; }
   if (!(A == A) || (A != A)) { o.bad(25, "A == A must hold"); return; }
